@@ -771,7 +771,8 @@ impl RctSigPrunable {
                         for _ in 0..mg_elements {
                             let mut ss: Vec<Vec<Key>> = vec![];
                             for _ in 0..=mixin {
-                                let mg_ss2_elements = if is_simple_or_bp { 2 } else { 1 + inputs };
+                                let mg_ss2_elements =
+                                    if is_simple_or_bp { 2 } else { inputs.saturating_add(1) };
                                 let ss_elems: Vec<Key> =
                                     consensus_decode_sized_vec(r, mg_ss2_elements)?;
                                 ss.push(ss_elems);
